@@ -572,6 +572,23 @@ def obligation(out, ctx, wb, name, cond, negated_goal, mem, args):
     out["lemmas"].append(rec)
     if ans == "sat":
         rec["model"] = text.split("\n", 1)[1] if "\n" in text else ""
+        # ask for a geometry small enough to replay natively through the public API
+        small = "(set-logic ALL)\n" + "\n".join(ctx.decls) + "\n"
+        for c in cond:
+            small += "(assert %s)\n" % c
+        for g in negated_goal:
+            small += "(assert %s)\n" % g
+        small += "(assert (bvule %s %s))\n" % (mem[1], bv(4096))
+        small += "(assert (and (bvsge %s %s) (bvsle %s %s)))\n" % (mem[2], bv(-4096), mem[2], bv(4096))
+        for a in set(args):
+            small += "(assert (and (bvsge %s %s) (bvsle %s %s)))\n" % (a, bv(-4096), a, bv(4096))
+        small += "(check-sat)\n(get-value (%s %s %s %s))\n" % (mem[1], mem[2], args[0], args[1])
+        a2, _, _, t2, _ = solve(small)
+        if a2 == "sat":
+            vals = [int(x, 2) for x in re.findall(r"#b([01]{64})", t2)]
+            vals = [v - (1 << 64) if v >= (1 << 63) else v for v in vals]
+            if len(vals) >= 4:
+                rec["small"] = {"cell_bytes": wb, "size": vals[0], "offset": vals[1], "a": vals[2], "b": vals[3]}
         out["violations"].append(rec)
     elif ans != "unsat":
         rec["solver_outputs"] = [r[3][:300] for r in all_results]
